@@ -13,6 +13,12 @@ OBLIGATIONS = [
     "KafVerif.C36.overlap_unsound",
     "KafVerif.C36.listing_sound",
     "KafVerif.C36.select_over_listing",
+    "KafVerif.C36.selectF_ok_eq_select",
+    "KafVerif.C36.select_ok_eq_direct",
+    "KafVerif.C36.selectF_clean",
+    "KafVerif.C36.selectF_err_of_candidate_fault",
+    "KafVerif.C36.cached_ok_eq_direct",
+    "KafVerif.C36.select_ok_over_listing",
 ]
 BUILDS = {"h": ("sql", "./cmd/verif_c36", ["C36"])}
 TECHNIQUE = ("Lean 4 refinement proof (record loop of handleSelect = direct filtering) + differential correspondence through "
@@ -26,11 +32,25 @@ LEVEL_TEXT = ("proof: select_eq_direct — for every segment list whose present 
               "the cross-reference to C02; listing_sound / select_over_listing — for every well-formed S3 object set (distinct "
               "bases per partition, offsets in [base, any later base)) every reference the modelled ListCompleted returns "
               "(sort, next-segment lookup, footer enrichment, with or without the time index) has sound statistics, hence a "
-              "SELECT over the real listing equals direct filtering. Tie: generated segment sets x queries through the real handleSelect (DataRow "
+              "SELECT over the real listing equals direct filtering. Faults: select_ok_eq_direct — for EVERY fault oracle (the listing "
+              "fails; the context is cancelled or Decode fails at any set of listing positions) a query that completes returns "
+              "exactly the direct filtering of ALL the topic's records (a fault can only turn the answer into an error); "
+              "selectF_clean — faults that hit no candidate segment do not fail the query; selectF_err_of_candidate_fault — an "
+              "ORDER BY / TAIL query fails when any candidate segment faults; cached_ok_eq_direct — for every history of queries, "
+              "each under its own fault oracle, through the modelled handleSelectWithCache (lookup by text, store only on "
+              "success; any sound starting cache), every answer that completes, computed or cached, equals direct filtering. Tie: generated segment sets x queries through the real handleSelect (DataRow "
               "messages decoded) and, for S3 object sets, through the real s3Lister.ListCompleted, TimeIndexBuilder.Build and "
               "timeIndexReader over an in-process S3 endpoint; rows and listed statistics are diffed with the model and the "
-              "rows are checked against the Lean `direct` specification.")
-LEVEL_NOTE = ("sort.Slice is unstable: rows with "
+              "rows are checked against the Lean `direct` specification. Every select runs through the real "
+              "handleSelectWithCache of one Server per world (result cache on); a third of the queries carry a fault script "
+              "(lister error, Decode error / context cancellation per listing position) that the scripted lister/decoder and "
+              "the Lean driver both follow — ok/err and rows are diffed, and the monitor asserts `err (only under a fault) or "
+              "exactly the direct result`, also for the un-faulted repeats that follow a faulted query. A further stream "
+              "faults the S3 endpoint itself (ListObjectsV2, footer-magic probe, .kfst read, manifest read) under the real "
+              "discovery.New stack: monitor only.")
+LEVEL_NOTE = ("S3-level faults of the lister stack are checked by the monitor only (not modelled); a failed footer-magic probe makes "
+              "the unchanged s3Lister drop the segment silently (reported as an observation / proposed finding, see notes). "
+              "sort.Slice is unstable: rows with "
               "equal _ts are compared as a multiset (the last tie group of a cut result by size). Aggregates, joins, LAST (wall "
               "clock) and the manifest lister are outside this check. buildRowValues is not modelled (a row is identified by "
               "segment, partition, offset, timestamp).")
@@ -38,7 +58,14 @@ ASSUMPTIONS = [
     "Decode returns records that carry the segment's partition (PartitionSound) — broker-written segments do",
     "statistics soundness for manifests / stale footers is an input hypothesis (StatsSound); for the S3 lister it is proved from offsets in [base, next base)",
     "DefaultLimit = 1000 > 0 (the code falls back to it for non-positive limits)",
+    "a fault of Decode / the context / the lister is an error return at that call (the fakes return an error and no data); backend write errors are not injected",
+    "result cache: TTL and eviction only remove entries (the theorem holds from any sound cache); ResultCache.MaxRows truncation is not reached",
 ]
+PROBE_FP = "footer-probe-error-drops-segment"
+PROBE_WHAT = ("C36: s3Lister.ListCompleted treats an ERROR of the footer-magic probe (ranged GetObject bytes=-4 of a .kfs) like "
+              "'not completed': the segment is dropped from the listing without an error, so a SELECT during the fault - and, "
+              "with the discovery cache (default TTL) on, every SELECT until the cached listing expires - completes with "
+              "`SELECT n` missing all rows of that segment")
 DEFAULT_SEED = 36
 
 
@@ -112,8 +139,22 @@ def gen_world_objects(rng):
     return lines, info
 
 
-def gen_queries(rng, info, n):
+def gen_faults(rng, nseg):
+    """fault script of one query: listing error, Decode error / cancellation at listing positions (one past the end:
+    never manifests)"""
+    items = []
+    if rng.chance(1, 8):
+        items.append("l")
+        if rng.chance(1, 2):
+            return "l"
+    for _ in range(1 if rng.chance(2, 3) else 2):
+        items.append(("c" if rng.chance(1, 6) else "d") + str(rng.below(nseg + 1)))
+    return ".".join(items)
+
+
+def gen_queries(rng, info, n, faults=True):
     out = []
+    nseg = len(info)
     offs = sorted({r[0] for _, _, recs in info for r in recs}) or [0]
     tss = sorted({r[1] for _, _, recs in info for r in recs}) or [0]
     parts = sorted({p for _, p, _ in info}) or [0]
@@ -128,20 +169,65 @@ def gen_queries(rng, info, n):
         omax = around(offs) if rng.chance(1, 3) else None
         tmin = around(tss) if rng.chance(1, 3) else None
         tmax = around(tss) if rng.chance(1, 3) else None
+        mode = rng.below(4)
+        window = rng.chance(1, 4)
+        if window:                            # both time bounds, no TAIL: the result cache stores / serves it
+            tmin = min(tss) - rng.choice([0, 1, 5]) if rng.chance(1, 2) else around(tss)
+            tmax = max(tss) + rng.choice([0, 1, 5]) if rng.chance(1, 2) else around(tss)
+            if mode == 1:
+                mode = 0
         if tmin is not None and tmax is not None and tmax < tmin:
             tmin, tmax = tmax, tmin          # "time window is invalid" otherwise
-        mode = rng.below(4)
         limit = rng.choice([None, 1, 2, 3, 5, 0, -1, 1000]) if rng.chance(1, 2) else None
         tail, order = None, "-"
         if mode == 1:
             tail = rng.choice([1, 2, 3, 10, 0])
         elif mode == 2:
             order = rng.choice(["asc", "desc"])
-        out.append("select %d part=%s omin=%s omax=%s tmin=%s tmax=%s limit=%s tail=%s order=%s" % (
-            topic, opt(part), opt(omin), opt(omax), opt(tmin), opt(tmax), opt(limit), opt(tail), order))
+        q = "select %d part=%s omin=%s omax=%s tmin=%s tmax=%s limit=%s tail=%s order=%s" % (
+            topic, opt(part), opt(omin), opt(omax), opt(tmin), opt(tmax), opt(limit), opt(tail), order)
+        if faults and rng.chance(1, 3):
+            # faulted, then the same query clean (must be exact: nothing of the failed attempt may stick), then
+            # faulted elsewhere (a cached result is served without touching the segments)
+            out.append(q + " fault=" + gen_faults(rng, nseg))
+            if rng.chance(2, 3):
+                out.append(q)
+                if rng.chance(1, 2):
+                    out.append(q + " fault=" + gen_faults(rng, nseg))
+            continue
+        out.append(q)
         if rng.chance(1, 2):
             out.append(out[-1])            # the same query again: listing caches (cachedLister, manifest TTL) are hit
     return out
+
+
+def gen_world_s3faults(rng):
+    """an object world whose S3 endpoint itself fails (HTTP 403) during the first listing and/or around single
+    queries; checked by the monitor only. Footer-probe faults get worlds of their own."""
+    lines, info, keys = ["reset"], [], []
+    for part in range(rng.range(1, 2)):
+        for base, recs in gen_partition(rng, rng.range(2, 4)):
+            lines.append("obj 0 %d %d kim %s %s" % (part, base, opt(rng.choice([None, 5, 1000])), ",".join("%d:%d" % r for r in recs) or "-"))
+            info.append((0, part, recs))
+            keys.append("t0/%d/segment-%d" % (part, base))
+    probe = rng.chance(1, 3)
+
+    def fault():
+        k = rng.choice(keys)
+        if probe:
+            return "p:%s.kfs" % k
+        return rng.choice(["L", "t:%s.kfst" % k, "t:%s.kfst" % k, "g:manifest.json", "L,t:%s.kfst" % k, "g:manifest.json,t:%s.kfst" % k])
+    lst = "list %d %d %d" % (1 if rng.chance(2, 3) else 0, 1 if rng.chance(1, 4) else 0, rng.choice([0, 0, 60]))
+    if rng.chance(1, 2):
+        lines += ["s3fault " + fault(), lst, "s3fault -"]      # the cache miss of the listing caches runs under the fault
+    else:
+        lines.append(lst)
+    for q in gen_queries(rng, info, 6, faults=False):
+        if rng.chance(1, 2):
+            lines += ["s3fault " + fault(), q, "s3fault -", q]
+        else:
+            lines.append(q)
+    return lines, probe
 
 
 def rows_of(line):
@@ -149,6 +235,11 @@ def rows_of(line):
         return None
     body = line[5:]
     return [] if body == "-" else [tuple(int(x) for x in r.split(":")) for r in body.split(",")]
+
+
+def fault_of(sel_line):
+    f = sel_line.split()
+    return f[10][6:] if len(f) == 11 and f[10].startswith("fault=") and f[10] != "fault=-" else None
 
 
 def same_rows(sel_line, a, b):
@@ -194,6 +285,7 @@ CORPUS = [
     ["reset", "seg 0 0 0 2 10 12 - 0:10,1:12,2:11", "seg 0 0 3 - - - 20 3:12,4:13", "seg 0 1 - - - 50 - 0:50", "seg 1 0 0 - - - - 0:1",
      "select 0 part=- omin=2 omax=- tmin=- tmax=- limit=- tail=- order=-",
      "select 0 part=- omin=- omax=3 tmin=- tmax=- limit=- tail=- order=-",
+     "select 0 part=- omin=- omax=2 tmin=- tmax=- limit=- tail=- order=-",
      "select 0 part=0 omin=- omax=- tmin=12 tmax=12 limit=- tail=- order=-",
      "select 0 part=- omin=- omax=- tmin=- tmax=- limit=2 tail=- order=-",
      "select 0 part=- omin=- omax=- tmin=- tmax=- limit=- tail=2 order=-",
@@ -224,7 +316,202 @@ CORPUS = [
      "select 0 part=- omin=2 omax=- tmin=- tmax=- limit=- tail=- order=-",
      "select 0 part=- omin=2 omax=- tmin=- tmax=- limit=- tail=- order=-",
      "select 0 part=- omin=5 omax=- tmin=17 tmax=- limit=- tail=- order=-"],
+    # faults: Decode of segment 1 fails -> error (never the rows of the other segments); LIMIT 2 stops before it; partition 1
+    # never touches it; listing error; cancellation; then the result cache: faulted (nothing stored), clean (stored), faulted
+    # on another segment (served from the cache), ORDER BY / TAIL over a faulted candidate
+    ["reset", "seg 0 0 0 2 10 12 - 0:10,1:12,2:11", "seg 0 0 3 - - - 20 3:12,4:13", "seg 0 1 - - - 50 - 0:50",
+     "select 0 part=- omin=- omax=- tmin=- tmax=- limit=- tail=- order=- fault=d1",
+     "select 0 part=- omin=- omax=- tmin=- tmax=- limit=- tail=- order=-",
+     "select 0 part=- omin=- omax=- tmin=- tmax=- limit=2 tail=- order=- fault=d1",
+     "select 0 part=1 omin=- omax=- tmin=- tmax=- limit=- tail=- order=- fault=d1.d0",
+     "select 0 part=- omin=- omax=- tmin=- tmax=- limit=- tail=- order=- fault=l",
+     "select 0 part=- omin=- omax=- tmin=- tmax=- limit=- tail=- order=- fault=c2",
+     "select 0 part=- omin=- omax=- tmin=10 tmax=13 limit=- tail=- order=- fault=d1",
+     "select 0 part=- omin=- omax=- tmin=10 tmax=13 limit=- tail=- order=-",
+     "select 0 part=- omin=- omax=- tmin=10 tmax=13 limit=- tail=- order=- fault=d0",
+     "select 0 part=- omin=- omax=- tmin=10 tmax=13 limit=- tail=- order=- fault=l",
+     "select 0 part=- omin=- omax=- tmin=- tmax=- limit=- tail=2 order=- fault=d0",
+     "select 0 part=- omin=- omax=- tmin=- tmax=- limit=- tail=2 order=-",
+     "select 0 part=- omin=- omax=- tmin=10 tmax=50 limit=2 tail=- order=desc fault=d2",
+     "select 0 part=- omin=- omax=- tmin=10 tmax=50 limit=2 tail=- order=desc",
+     "select 0 part=- omin=4 omax=- tmin=- tmax=- limit=- tail=- order=- fault=d0",
+     "select 0 part=- omin=- omax=- tmin=- tmax=- limit=- tail=- order=- fault=d7"],
+    # the same through the real lister stack (listing cache on, time index on)
+    ["reset", "obj 0 0 0 kim 5 0:10,1:12,2:14,3:15", "obj 0 0 4 kim 7 4:16,5:17,6:18", "obj 0 0 7 kim 7 7:19", "list 1 0 60",
+     "select 0 part=- omin=- omax=- tmin=10 tmax=20 limit=- tail=- order=- fault=d1",
+     "select 0 part=- omin=- omax=- tmin=10 tmax=20 limit=- tail=- order=-",
+     "select 0 part=- omin=- omax=- tmin=10 tmax=20 limit=- tail=- order=- fault=d2",
+     "select 0 part=- omin=- omax=- tmin=17 tmax=- limit=- tail=- order=- fault=d0",
+     "select 0 part=- omin=- omax=- tmin=17 tmax=- limit=- tail=- order=- fault=c1",
+     "select 0 part=- omin=- omax=- tmin=17 tmax=- limit=- tail=- order=-"],
 ]
+
+# S3-level faults under the real discovery.New stack (monitor only); the third element of a world = footer-probe faults
+CORPUS_S3 = [
+    ["reset", "obj 0 0 0 kim 5 0:10,1:12,2:14,3:15", "obj 0 0 4 kim 7 4:16,5:17,6:18", "obj 0 0 7 kim 7 7:19", "list 1 0 0",
+     "s3fault t:t0/0/segment-4.kfst", "select 0 part=- omin=- omax=- tmin=17 tmax=- limit=- tail=- order=-",
+     "s3fault L", "select 0 part=- omin=- omax=- tmin=17 tmax=- limit=- tail=- order=-",
+     "s3fault -", "select 0 part=- omin=- omax=- tmin=17 tmax=- limit=- tail=- order=-"],
+    ["reset", "obj 0 0 0 kim 5 0:10,1:12,2:14,3:15", "obj 0 0 4 kim 7 4:16,5:17,6:18", "s3fault L,t:t0/0/segment-0.kfst", "list 1 0 60",
+     "s3fault -", "select 0 part=- omin=- omax=- tmin=12 tmax=16 limit=- tail=- order=-",
+     "select 0 part=- omin=- omax=- tmin=12 tmax=16 limit=- tail=- order=-"],
+    ["reset", "obj 0 0 0 kim 5 0:10,1:12,2:14,3:15", "obj 0 0 4 kim 7 4:16,5:17,6:18", "s3fault g:manifest.json,t:t0/0/segment-4.kfst",
+     "list 1 1 60", "s3fault -", "select 0 part=- omin=5 omax=- tmin=- tmax=- limit=- tail=- order=-"],
+]
+
+
+def lean_both(ck, lines, tag):
+    """one interpreter run: every `select` line is followed by its `direct` (specification) twin"""
+    mfn = ck.path("model_in_%s.txt" % tag)
+    both = []
+    for l in lines:
+        both.append(l)
+        if l.startswith("select "):
+            both.append("direct" + l[6:])
+    open(mfn, "w").write("\n".join(both) + "\n")
+    outb = ck.lean_run("C36", mfn)
+    model, spec, it = [], [], iter(outb)
+    for l in lines:
+        m = next(it, None)
+        model.append(m)
+        spec.append(next(it, None) if l.startswith("select ") else m)
+    return model, spec
+
+
+def objects_of(world):
+    objs = {}
+    for l in world:
+        f = l.split()
+        if f[0] == "obj" and f[4] == "kim":
+            objs[(int(f[1]), int(f[2]), int(f[3]))] = [tuple(int(x) for x in r.split(":")) for r in f[6].split(",")] if f[6] != "-" else []
+    return objs
+
+
+def no_seg(rows):
+    return None if rows is None else [(0,) + tuple(r[1:]) for r in rows]
+
+
+def probe_finding(ck, what, replay):
+    """the unchanged lister drops a segment whose footer probe failed (proposed finding, notes/C36.md): reported as a
+    KNOWN-FINDING once it is registered in known_findings.json, as an observation until then"""
+    if any(k.get("status", "open") == "open" and k.get("property") == PROPERTY and k.get("fingerprint") == PROBE_FP for k in ck.known):
+        ck.violation(PROBE_FP, what, replay)
+        return
+    ck.count("observed_footer_probe_fault_partial_results")
+    note = "observation (proposed finding %s, not registered): %s" % (PROBE_FP, PROBE_WHAT)
+    if note not in ck.notes:
+        ck.notes.append(note)
+
+
+def judge_s3faults(ck, lines, impl, spec, probe):
+    """S3-level faults under the real discovery.New stack — monitor only: a query under an armed fault fails or returns
+    exactly the direct result of ALL completed objects; a query with no fault armed returns exactly that, whatever
+    happened before (listing caches, result cache)."""
+    world = [l for l in lines if not l.startswith("select")]
+    objs = objects_of(world)
+    armed = False
+    for i, (l, io, so) in enumerate(zip(lines, impl, spec)):
+        f = l.split()
+        if f[0] == "s3fault":
+            armed = f[1] != "-"
+            continue
+        hist = {"lines": lines[:i + 1], "kind": "s3faults", "probe": probe}
+        if f[0] == "list":
+            ck.count("listings_under_s3_fault" if armed else "listings")
+            if io.startswith("list"):
+                bad = stats_sound(io, objs)
+                if bad:
+                    ck.violation("listed-statistics-unsound", "the S3 lister's statistics do not bound the segment's records: " + bad,
+                                 dict(hist, actual=io))
+            elif not (armed and io == "err-list"):
+                ck.violation("lister-fails-without-fault", "the lister stack failed (%s) with no fault armed" % io, dict(hist, actual=io))
+            continue
+        if f[0] != "select":
+            continue
+        ck.count("s3fault_queries" + ("_armed" if armed else ""))
+        ri, rs = no_seg(rows_of(io)), no_seg(rows_of(so))
+        ck.case((tuple(lines[:i]), l), nontrivial=bool(ri), sample={"world": world[:6], "query": l, "impl": io[:160]})
+        ck.cov["traces_validated_against_impl"] += 1
+        if io == "err" and armed:
+            ck.count("queries_failed_by_fault")
+            continue
+        if io == "panic":
+            ck.violation("select-panics", "handleSelect panicked", dict(hist, actual=io))
+        elif io == "err":
+            ck.violation("select-fails-without-fault", "the query failed although no fault was armed: %s" % l, dict(hist, expected=so, actual=io))
+        elif ri is None:
+            ck.violation("command-tag-miscounts-rows", "%s: %s" % (l, io), dict(hist, actual=io))
+        elif not same_rows(l, ri, rs):
+            what = "a completed query differs from filtering the records of all completed objects directly (S3 fault %s): %s" % (
+                "armed" if armed else "over", l)
+            if probe:
+                probe_finding(ck, what, dict(hist, expected=so, actual=io))
+            else:
+                ck.violation("select-differs-from-direct-filtering", what, dict(hist, expected=so, actual=io))
+
+
+def judge(ck, lines, impl, model, spec, kind, sound, corr=True):
+    """one world (reset … selects): direct monitors + correspondence (unless corr is False: it already broke in an earlier
+    world; the monitors still look for a concrete failing input). Returns False when the correspondence broke."""
+    world = [l for l in lines if not l.startswith("select")]
+    # object worlds: well-formed layout => the listed statistics must be sound (direct monitor on the real lister)
+    objs = objects_of(world)
+    for i, (l, io, mo, so) in enumerate(zip(lines, impl, model, spec)):
+        # the history matters (result cache, listing caches): a replay holds every line up to the failing one
+        hist = {"lines": lines[:i + 1], "kind": kind, "sound": sound}
+        if l.startswith("list "):
+            ck.count("listings")
+            bad = stats_sound(io, objs) if io.startswith("list") else "lister failed: " + io
+            if bad:
+                ck.violation("listed-statistics-unsound", "the S3 lister's statistics do not bound the segment's records: " + bad,
+                             dict(hist, actual=io))
+            if corr and io != mo:
+                ck.cov["disagreements_checked"] += 1
+                ck.broke("correspondence model/implementation (s3Lister.ListCompleted + time index)",
+                         "world:\n%s\nimpl : %s\nmodel: %s" % ("\n".join(world), io, mo))
+                return False
+            continue
+        if not l.startswith("select "):
+            if corr and io != mo:
+                ck.broke("correspondence model/implementation (harness protocol)", "%s: %s vs %s" % (l, io, mo))
+                return False
+            continue
+        fault = fault_of(l)
+        ri, rm, rs = rows_of(io), rows_of(mo), rows_of(so)
+        ck.count(kind + "_queries")
+        ck.count("rows_returned", len(ri or []))
+        if fault:
+            ck.count("queries_with_fault_script")
+            ck.count("fault_outcome_" + ("err" if io == "err" else "completed"))
+        total = sum(len(x.split()[-1].split(",")) for x in world if x.split()[0] in ("seg", "obj") and x.split()[-1] != "-")
+        ck.case((tuple(lines[:i]), l), nontrivial=(bool(ri) and len(ri) < total) or (bool(fault) and io == "err" and bool(rs)),
+                sample={"world": world[:6], "query": l, "impl": io[:160]})
+        ck.cov["traces_validated_against_impl"] += 1
+        if io == "panic":
+            ck.violation("select-panics", "handleSelect panicked", dict(hist, actual=io))
+            continue
+        if io.startswith("tag-mismatch"):
+            ck.violation("command-tag-miscounts-rows", "%s: %s" % (l, io), dict(hist, actual=io))
+            continue
+        # direct monitor: a query fails (only when a fault was injected into it) or returns exactly the direct result
+        if sound and not (io == "err" and fault):
+            if io == "err":
+                ck.violation("select-fails-without-fault", "the query failed although no fault was injected: %s" % l,
+                             dict(hist, expected=so, actual=io))
+                continue
+            if not same_rows(l, ri, rs):
+                earlier = [x for x in lines[:i] if x.startswith("select ") and fault_of(x) and x.split()[:10] == l.split()[:10]]
+                ck.violation("faulted-query-poisons-later-query" if earlier and not fault else "select-differs-from-direct-filtering",
+                             "a completed query's rows differ from filtering the topic's records directly%s: %s" % (
+                                 " (fault script %s: the answer must be an error or the full result)" % fault if fault else "", l),
+                             dict(hist, expected=so, actual=io))
+                continue
+        if corr and ((io == "err") != (mo == "err") or not same_rows(l, ri, rm)):
+            ck.cov["disagreements_checked"] += 1
+            ck.broke("correspondence model/implementation (Server.handleSelectWithCache / handleSelect)",
+                     "world:\n%s\nquery: %s\nimpl : %s\nmodel: %s" % ("\n".join(lines[:i]), l, io, mo))
+            return False
+    return True
 
 
 def run(ck):
@@ -238,25 +525,36 @@ def run(ck):
                       "stream for correspondence only; segments without timestamp statistics carry a LastModified before / between / "
                       "after their record timestamps) or derived by the real discovery.New lister stack (s3Lister, time index, "
                       "manifest lister, cachedLister with TTL 60 s or off) over an in-process S3 endpoint from object sets with "
-                      "incomplete segments; 12 queries per world, half of them issued twice so that listing caches are hit, with bounds at and next to every offset / timestamp, "
-                      "LIMIT/TAIL/ORDER BY; non-trivial = at least one segment skipped or one row filtered and at least one row "
-                      "returned; distinct = distinct (world, query) texts")
+                      "incomplete segments; ~12 queries per world through the real handleSelectWithCache (one Server and result cache "
+                      "per world), bounds at and next to every offset / timestamp, LIMIT/TAIL/ORDER BY, a quarter with both time "
+                      "bounds (result-cacheable); a third carry a fault script (lister error; Decode error / context cancellation at "
+                      "1-2 listing positions incl. skipped, unreached and non-existent ones) and are followed by the same query "
+                      "clean and then faulted elsewhere; other queries are issued twice so that listing caches are hit; a fifth "
+                      "of the worlds fault the S3 endpoint (ListObjectsV2, footer probe, .kfst read, manifest read) during the "
+                      "first listing or around single queries (monitor only); non-trivial = at least one segment skipped or one "
+                      "row filtered and at least one row returned, or a query failed by its fault that has rows to lose; "
+                      "distinct = distinct (history, query) texts")
     worlds = []
     for c in CORPUS:
         worlds.append(("corpus", c, True))
-    nw = 60 if quick else 600
+    for c in CORPUS_S3:
+        worlds.append(("s3faults", c, False))
+    nw = 75 if quick else 750
     for i in range(nw):
         r = ck.rng.fork()
-        k = i % 4
+        k = i % 5
         if k in (0, 1):
             lines, info = gen_world_explicit(r, sound=True)
             worlds.append(("explicit", lines + gen_queries(r, info, 12), True))
         elif k == 2:
             lines, info = gen_world_explicit(r, sound=False)
             worlds.append(("unsound", lines + gen_queries(r, info, 12), False))
-        else:
+        elif k == 3:
             lines, info = gen_world_objects(r)
             worlds.append(("objects", lines + gen_queries(r, info, 12), True))
+        else:
+            lines, probe = gen_world_s3faults(r)
+            worlds.append(("s3faults", lines, probe))
     lines, spans = [], []
     for kind, ls, sound in worlds:
         spans.append((len(lines), len(lines) + len(ls), kind, sound))
@@ -267,70 +565,17 @@ def run(ck):
         ck.broke("implementation harness did not answer every line", crash)
         return
     ck.log("implementation answered")
-    # one interpreter run: every `select` line is followed by its `direct` (specification) twin
-    mfn = ck.path("model_in.txt")
-    both = []
-    for l in lines:
-        both.append(l)
-        if l.startswith("select "):
-            both.append("direct" + l[6:])
-    open(mfn, "w").write("\n".join(both) + "\n")
-    outb = ck.lean_run("C36", mfn)
-    model, spec, it = [], [], iter(outb)
-    for l in lines:
-        m = next(it, None)
-        model.append(m)
-        spec.append(next(it, None) if l.startswith("select ") else m)
+    model, spec = lean_both(ck, lines, "all")
     ck.log("model and spec answered")
-    if len(model) != len(lines) or len(spec) != len(lines):
+    if len(model) != len(lines) or len(spec) != len(lines) or None in model or None in spec:
         ck.broke("model driver did not answer every line", "%d %d / %d" % (len(model), len(spec), len(lines)))
         return
+    corr = True
     for a, b, kind, sound in spans:
-        world = [l for l in lines[a:b] if not l.startswith("select")]
-        # object worlds: well-formed layout => the listed statistics must be sound (direct monitor on the real lister)
-        objs = {}
-        for l in world:
-            f = l.split()
-            if f[0] == "obj" and f[4] == "kim":
-                objs[(int(f[1]), int(f[2]), int(f[3]))] = [tuple(int(x) for x in r.split(":")) for r in f[6].split(",")] if f[6] != "-" else []
-        for i in range(a, b):
-            l, io, mo, so = lines[i], impl[i], model[i], spec[i]
-            if l.startswith("list "):
-                ck.count("listings")
-                bad = stats_sound(io, objs) if io.startswith("list") else "lister failed: " + io
-                if bad:
-                    ck.violation("listed-statistics-unsound", "the S3 lister's statistics do not bound the segment's records: " + bad,
-                                 {"lines": world, "actual": io})
-                if io != mo:
-                    ck.cov["disagreements_checked"] += 1
-                    ck.broke("correspondence model/implementation (s3Lister.ListCompleted + time index)",
-                             "world:\n%s\nimpl : %s\nmodel: %s" % ("\n".join(world), io, mo))
-                    return
-                continue
-            if not l.startswith("select "):
-                if io != mo:
-                    ck.broke("correspondence model/implementation (harness protocol)", "%s: %s vs %s" % (l, io, mo))
-                    return
-                continue
-            ri, rm, rs = rows_of(io), rows_of(mo), rows_of(so)
-            ck.count(kind + "_queries")
-            ck.count("rows_returned", len(ri or []))
-            total = sum(len(x.split()[-1].split(",")) for x in world if x.split()[0] in ("seg", "obj") and x.split()[-1] != "-")
-            ck.case((tuple(world), l), nontrivial=bool(ri) and len(ri) < total, sample={"world": world[:6], "query": l, "impl": io[:160]})
-            ck.cov["traces_validated_against_impl"] += 1
-            if io == "panic":
-                ck.violation("select-panics", "handleSelect panicked", {"lines": world + [l], "actual": io})
-                continue
-            if sound and not same_rows(l, ri, rs):
-                ck.violation("select-differs-from-direct-filtering",
-                             "rows differ from filtering the topic's records directly: %s" % l,
-                             {"lines": world + [l], "expected": so, "actual": io})
-                continue
-            if not same_rows(l, ri, rm):
-                ck.cov["disagreements_checked"] += 1
-                ck.broke("correspondence model/implementation (Server.handleSelect)",
-                         "world:\n%s\nquery: %s\nimpl : %s\nmodel: %s" % ("\n".join(world), l, io, mo))
-                return
+        if kind == "s3faults":
+            judge_s3faults(ck, lines[a:b], impl[a:b], spec[a:b], probe=sound)
+        elif not judge(ck, lines[a:b], impl[a:b], model[a:b], spec[a:b], kind, sound, corr):
+            corr = False       # reported once; keep looking for a concrete failing input with the monitors
 
 
 def replay(ck, path):
@@ -343,23 +588,11 @@ def replay(ck, path):
     if crash:
         ck.broke("implementation harness did not answer", crash)
         return
-    sfn = ck.path("spec_in.txt")
-    open(sfn, "w").write("\n".join(("direct" + l[6:]) if l.startswith("select ") else l for l in lines) + "\n")
-    spec = ck.lean_run("C36", sfn)
-    objs = {}
-    for l in lines:
-        f = l.split()
-        if f[0] == "obj" and f[4] == "kim":
-            objs[(int(f[1]), int(f[2]), int(f[3]))] = [tuple(int(x) for x in r.split(":")) for r in f[6].split(",")] if f[6] != "-" else []
-    for l, io, so in zip(lines, impl, spec):
-        print("  %s -> %s" % (l[:90], io[:120]))
-        if l.startswith("list "):
-            bad = stats_sound(io, objs) if io.startswith("list") else "lister failed"
-            if bad:
-                ck.violation("listed-statistics-unsound", bad, {"lines": lines, "actual": io})
-        if l.startswith("select "):
-            ck.case((tuple(lines), l), sample={"query": l, "impl": io[:160]})
-            if not same_rows(l, rows_of(io), rows_of(so)):
-                ck.violation("select-differs-from-direct-filtering", "rows differ from direct filtering: %s" % l,
-                             {"lines": lines, "expected": so, "actual": io})
+    model, spec = lean_both(ck, lines, "replay")
+    for l, io in zip(lines, impl):
+        print("  %s -> %s" % (l[:110], io[:120]))
+    if rep.get("kind") == "s3faults" or any(l.startswith("s3fault ") for l in lines):
+        judge_s3faults(ck, lines, impl, spec, probe=bool(rep.get("probe")))
+    else:
+        judge(ck, lines, impl, model, spec, rep.get("kind", "replay"), rep.get("sound", True))
     ck.cov["distinct_nontrivial"] = max(ck.cov["distinct_nontrivial"], 2)
